@@ -220,17 +220,26 @@ Section Proofs.
     intros k v Hin. apply assoc_In_NoDup; [apply HI|assumption].
   Qed.
 
+  Lemma ci_update_both_spec e kw s :
+    ci_update fold olk (Some e) kw s = Ok (od_setall (fold_items fold kw) (od_setall (fold_items fold e) s)).
+  Proof.
+    assert (HT : forall x, Inv (od_setall (fold_items fold x) [])).
+    { intros x. apply Inv_setall; [apply fold_items_keys_folded|apply Inv_nil]. }
+    unfold ci_update. rewrite !ci_new_spec. cbn [bind].
+    rewrite update_from_spec by apply HT. cbn [bind store].
+    rewrite setall_via_temp. rewrite update_from_spec by apply HT. cbn [store].
+    rewrite setall_via_temp. reflexivity.
+  Qed.
+
   Lemma ci_update_spec e s :
     ci_update fold olk (Some e) [] s = Ok (od_setall (fold_items fold e) s) /\
     ci_update fold olk None e s = Ok (od_setall (fold_items fold e) s).
   Proof.
+    split; [rewrite ci_update_both_spec; reflexivity|].
     assert (HT : Inv (od_setall (fold_items fold e) [])).
     { apply Inv_setall; [apply fold_items_keys_folded|apply Inv_nil]. }
-    unfold ci_update. rewrite !ci_new_spec. cbn [bind fold_items map od_setall fold_left].
-    split.
-    - rewrite update_from_spec by exact HT. cbn [bind store].
-      rewrite setall_via_temp. rewrite update_from_spec by apply Inv_nil. reflexivity.
-    - rewrite update_from_spec by exact HT. cbn [store]. rewrite setall_via_temp. reflexivity.
+    unfold ci_update. rewrite !ci_new_spec. cbn [bind].
+    rewrite update_from_spec by exact HT. cbn [store]. rewrite setall_via_temp. reflexivity.
   Qed.
 
   Lemma init_from_mapping_spec f m :
@@ -302,6 +311,7 @@ Section Proofs.
       + unfold ci_setitem, _k. rewrite fold_idem. reflexivity.
     - destruct (ci_update_spec e s) as [-> _]. reflexivity.
     - destruct (ci_update_spec kw s) as [_ ->]. reflexivity.
+    - rewrite ci_update_both_spec. reflexivity.
     - (* ORebuild *)
       rewrite ci_new_spec, fold_items_id by apply HI. rewrite setall_self by apply HI.
       apply lift_cid_same.
@@ -323,6 +333,7 @@ Section Proofs.
       apply Inv_set; [apply fold_idem|exact HI].
     - cbn [fst]. apply Inv_setall; [apply fold_items_keys_folded|exact HI].
     - cbn [fst]. apply Inv_setall; [apply fold_items_keys_folded|exact HI].
+    - cbn [fst]. apply Inv_setall; [apply fold_items_keys_folded|]. apply Inv_setall; [apply fold_items_keys_folded|exact HI].
     - destruct (od_mem k m); cbn [fst]; [apply Inv_move_to_end|]; exact HI.
   Qed.
 
